@@ -25,6 +25,7 @@ alone.
 import itertools
 import re
 import subprocess
+import zlib
 
 from .. import cppref, fs
 
@@ -91,6 +92,7 @@ class Evaluator:
         self.over = {}         # family -> count not kept
         self.samples = []
         self.nbatch_fallback = 0
+        self.sig = {}
 
     # -- observations --------------------------------------------------------
     def obs_tokens(self, src):
@@ -144,6 +146,9 @@ class Evaluator:
             self.solo(src, stratum, o, al)
         else:
             self.distinct.add(hash(o.tokens))
+            if self.risky(o):
+                self.solo(src, stratum, o, al)
+                return o
             self.batch.append((src, stratum, o, al))
             if len(self.batch) >= BATCH:
                 self.flush()
@@ -153,13 +158,17 @@ class Evaluator:
         ok = True
         if 'tokens' in modes:
             obs = self.obs_tokens(src)
-            if not self.agrees(obs, al):
+            bad = not self.agrees(obs, al)
+            if o.status == 'ok':
+                self.note(o, bad)
+            if bad:
                 self.record(stratum, 'tokens', src, o, al, obs)
                 ok = False
             elif len(self.samples) < 3 and (o.status == 'reject' or len(o.tokens) > 3):
                 self.samples.append({'stratum': stratum, 'input': src, 'expected': 'reject (%s)' % o.reason if o.status == 'reject' else cppref.render(o.tokens),
                                      'observed': 'status 1: ' + obs[2].strip() if obs[0] else cppref.render(obs[1])})
-        if ok and self.do_e and 'E' in modes and not has_other(o):
+        if ok and self.do_e and 'E' in modes and not has_other(o) and (
+                modes == ('E',) or stratum in ('M3', 'M4') or zlib.crc32(src.encode('latin-1')) & 7 == 0):
             self.e_n += 1
             obs = self.obs_e(src)
             if not self.agrees(obs, al):
@@ -167,28 +176,37 @@ class Evaluator:
 
     def flush(self):
         batch, self.batch = self.batch, []
-        if not batch:
-            return
-        if len(batch) == 1:
-            self.solo(*batch[0])
-            return
+        self.run_batch(batch)
+
+    @staticmethod
+    def batch_text(batch):
         parts = []
         for k, (src, stratum, o, al) in enumerate(batch):
             parts.append(src if src.endswith('\n') else src + '\n')
             parts.append(MARK % k + '\n')
             for nm in o.defined:
                 parts.append('#undef %s\n' % nm)
-        text = ''.join(parts)
-        todo_e = []
+        return ''.join(parts)
+
+    def run_batch(self, batch):
+        """Token mode for a list of cases the model accepts; a batch whose markers do not come out is bisected."""
+        if len(batch) <= 2:
+            for c in batch:
+                self.solo(*c)
+            return
+        text = self.batch_text(batch)
         obs = self.obs_tokens(text)
         segs = split_at_markers(obs[1], len(batch)) if obs[0] == 0 else None
         if segs is None:
             self.nbatch_fallback += 1
-            for c in batch:
-                self.solo(*c)
+            h = len(batch) // 2
+            self.run_batch(batch[:h])
+            self.run_batch(batch[h:])
             return
+        todo_e = []
         for c, seg in zip(batch, segs):
             if seg in c[3]:
+                self.note(c[2], False)
                 if not has_other(c[2]):
                     todo_e.append(c)
             else:
@@ -197,24 +215,42 @@ class Evaluator:
                 if self.agrees(o1, c[3]):
                     self.context_case(text, c)
                 else:
+                    self.note(c[2], True)
                     self.record(c[1], 'tokens', c[0], c[2], c[3], o1)
-        if not self.do_e or not todo_e:
-            return
-        obs = self.obs_e(text)
-        segs = split_at_markers(obs[1], len(batch)) if obs[0] == 0 else None
-        if segs is None:
-            for c in todo_e:
+        if self.do_e:
+            self.run_e_batch(todo_e)
+
+    def run_e_batch(self, batch):
+        if len(batch) <= 2:
+            for c in batch:
                 self.solo(*c, modes=('E',))
             return
-        ok = {id(c) for c in todo_e}
+        obs = self.obs_e(self.batch_text(batch))
+        segs = split_at_markers(obs[1], len(batch)) if obs[0] == 0 else None
+        if segs is None:
+            h = len(batch) // 2
+            self.run_e_batch(batch[:h])
+            self.run_e_batch(batch[h:])
+            return
         for c, seg in zip(batch, segs):
-            if id(c) not in ok:
-                continue
             self.e_n += 1
             if seg not in c[3]:
                 o1 = self.obs_e(c[0])
                 if not self.agrees(o1, c[3]):
                     self.record(c[1], 'E', c[0], c[2], c[3], o1)
+
+    def note(self, o, bad):
+        """Scheduling only: remember which model-flag signatures tend to disagree, to run such cases alone."""
+        k = frozenset(o.flags)
+        v = self.sig.get(k)
+        if v is None:
+            v = self.sig[k] = [0, 0]
+        v[0] += 1
+        v[1] += bad
+
+    def risky(self, o):
+        v = self.sig.get(frozenset(o.flags))
+        return v is not None and v[1] >= 5 and v[1] * 5 > v[0]
 
     def context_case(self, text, c):
         o, al = cppref.allowed(text)
@@ -313,6 +349,10 @@ def family(rec):
         return 'crash/' + crash_site(st, rec['obs_text'])
     if 'funclike-name-then-directive' in rec['flags']:
         return 'directive-not-recognised-after-funclike-name-at-end-of-line'
+    if mode == 'tokens' and st == 0:
+        o2 = cppref.run(rec['src'], stale_paint=True)
+        if o2.status == 'ok' and o2.tokens == rec['obs']:
+            return 'wrong-expansion/hide-flag-painted-on-stored-body-tokens'
     if rec['exp'] == 'reject':
         return 'accept-invalid/' + rec['reason']
     if st == 1:
@@ -324,9 +364,6 @@ def family(rec):
         return 'E-text/' + diffsig(exp, got, rec['defined'])
     if mode == 'D':
         return 'D/il-differs-from-expanded-program'
-    o2 = cppref.run(rec['src'], stale_paint=True)
-    if o2.status == 'ok' and o2.tokens == got:
-        return 'wrong-expansion/hide-flag-painted-on-stored-body-tokens'
     sig = diffsig(exp, got, rec['defined'])
     if 'keyword-body-expanded-twice' in rec['flags']:
         return 'wrong-expansion/second-expansion-of-macro-whose-body-contains-a-keyword'
